@@ -19,11 +19,12 @@ MAX_DEPTH = 10
 OPS = {">": "CGt", "<": "CLt", ">=": "CGe", "<=": "CLe", "=": "CEq", "!=": "CNe"}
 GOAL_NAMES = ["X", "Y", "s", "v0", "v1", "v7", "x"]
 RULE_NAMES = ["X", "Y", "Z", "W", "v0", "v1", "s"]
-FINDING_FILTERS = "C18-filters-ignored"
 
-PROP_RULE = ("a case is one program (dictionary, <= 6 facts, 1-3 positive rules with 1-3 premises and 1-2 conclusions, "
+PROP_RULE = ("a case is one program (dictionary, <= 6 facts, 1-3 positive safe rules with 1-3 premises and 1-2 conclusions, "
              "constants and repeated variables in every position, occasionally a variable predicate, recursive "
-             "templates: right/left/doubly recursive ancestor, symmetry, 3-premise chain) and one goal pattern with 0-3 "
+             "templates: right/left/doubly recursive ancestor, symmetry, 3-premise chain; in two thirds of the random "
+             "programs rules may carry 1-2 filters: numeric comparisons on a premise variable or =, !=, < between two "
+             "premise variables, over dictionaries with numeric strings) and one goal pattern with 0-3 "
              "variables named from {X,Y,s,v0,v1,v7,x} (rule variables from {X,Y,Z,W,v0,v1,s}); the real engine's answer "
              "multiset (goal with resolve_term applied per returned binding map) is compared with the model's, and with "
              "the least model: soundness (every ground instance of every answer is in it) and shallow completeness "
@@ -44,7 +45,9 @@ def c_atom(a):
 
 
 def c_filter(f):
-    return 'Filter "%s" %s (%d)%%Z' % (f["x"], OPS[f["op"]], f["num"])
+    if "var" in f:
+        return 'Filter "%s" %s (FVar "%s")' % (f["x"], OPS[f["op"]], f["var"])
+    return 'Filter "%s" %s (FNum (%d)%%Z)' % (f["x"], OPS[f["op"]], f["num"])
 
 
 def c_rule(r):
@@ -102,7 +105,8 @@ def atom_vars(a):
 
 def safe_rule(r):
     pv = set(v for a in r["prem"] for v in atom_vars(a))
-    return all(v in pv for a in r["concl"] for v in atom_vars(a)) and all(f["x"] in pv for f in r.get("filt", []))
+    return all(v in pv for a in r["concl"] for v in atom_vars(a)) and \
+        all(f["x"] in pv and ("var" not in f or f["var"] in pv) for f in r.get("filt", []))
 
 
 # ---- the Spec in Python: least model with least derivation heights ------------------------------------------
@@ -133,6 +137,15 @@ def least_model(case, use_filters=True):
     nums = [numeric_value(s) for s in case["dict"]]
     cmpf = {">": lambda a, b: a > b, "<": lambda a, b: a < b, ">=": lambda a, b: a >= b, "<=": lambda a, b: a <= b,
             "=": lambda a, b: a == b, "!=": lambda a, b: a != b}
+
+    def holds(f, e):
+        """rules.rs evaluate_filters on a ground rule instance: a variable value compares identifiers (= and != only,
+        every other operator accepts), a numeric value compares the numeric value of the bound constant"""
+        lhs = e[f["x"]]
+        if "var" in f:
+            rhs = e[f["var"]]
+            return cmpf[f["op"]](lhs, rhs) if f["op"] in ("=", "!=") else True
+        return cmpf[f["op"]](nums[lhs] if lhs < len(nums) else 0, f["num"])
     height = {tuple(f): 0 for f in case["facts"]}
     h = 0
     while True:
@@ -140,7 +153,7 @@ def least_model(case, use_filters=True):
         new = set()
         for r in case["rules"]:
             for e in matches(r["prem"], db, {}):
-                if use_filters and not all(cmpf[f["op"]](nums[e[f["x"]]] if e[f["x"]] < len(nums) else 0, f["num"]) for f in r.get("filt", [])):
+                if use_filters and not all(holds(f, e) for f in r.get("filt", [])):
                     continue
                 for c in r["concl"]:
                     g = tuple(t[1] if t[0] == "c" else e[t[1]] for t in c)
@@ -254,10 +267,14 @@ def random_program(rng, filters=False):
             r = {"prem": json.loads(json.dumps(t["prem"])), "concl": json.loads(json.dumps(t["concl"])), "filt": []}
         else:
             r = random_rule(rng, E, PR)
-        if filters and (rng.random() < 0.7 or not any(x.get("filt") for x in rules)):
+        if filters and rng.random() < 0.6:
             pv = sorted(set(v for a in r["prem"] for v in atom_vars(a)))
-            if pv:
-                r["filt"] = [{"x": rng.choice(pv), "op": rng.choice(list(OPS)), "num": rng.choice([0, 1, 2, 3, 5])}]
+            for _ in range(rng.choice([1, 1, 2])):
+                if len(pv) >= 2 and rng.random() < 0.4:
+                    x, y = rng.sample(pv, 2)
+                    r["filt"].append({"x": x, "op": rng.choice(["=", "!=", "!=", "<"]), "var": y})
+                elif pv:
+                    r["filt"].append({"x": rng.choice(pv), "op": rng.choice(list(OPS)), "num": rng.choice([0, 1, 2, 3, 5])})
         rules.append(r)
     case = {"kind": "bc", "dict": dic, "facts": facts, "rules": rules, "goal": random_goal(rng, E, PR)}
     if rng.random() < 0.55:
@@ -382,7 +399,9 @@ def exhaustive_cases(thorough):
     sym = {"prem": [[X, C(P), Y]], "concl": [[Y, C(P), X]], "filt": []}
     anyp = {"prem": [[X, Y, Z]], "concl": [[Z, C(A), X]], "filt": []}
     chain = [[0, P, 1], [1, P, 2]]
+    ne = {"prem": [[X, C(P), Y]], "concl": [[X, C(A), Y]], "filt": [{"x": "X", "op": "!=", "var": "Y"}]}
     programs = [
+        (chain + [[1, P, 1]], [ne, right]),
         (chain, [copy, right]),
         (chain, [v_copy, v_right]),
         (chain, [right, copy]),
@@ -478,8 +497,7 @@ def canon_answers(l):
 def evaluate_bc(ctx, binpath, cases, stream):
     impl = run_impl_guarded(ctx, binpath, cases)
     model = ctx.run_model(SUB, REQ, [c_run_all(c) for c in cases], preamble=PRE, timeout=1500)
-    st = {"cases": len(cases), "impl_model_mismatches": 0, "spec_violations": 0, "in_known_filters": 0,
-          "known_filters_reproduced": 0, "answers": 0, "empty_answers": 0, "goal_vars": 0, "goal_v_names": 0,
+    st = {"cases": len(cases), "impl_model_mismatches": 0, "spec_violations": 0, "with_filters": 0, "filtered_out_instances": 0, "answers": 0, "empty_answers": 0, "goal_vars": 0, "goal_v_names": 0,
           "rules": 0, "premises": 0, "facts": 0, "lm_facts": 0, "lm_derived": 0, "lm_deeper_than_bound": 0,
           "required_answers": 0, "required_derived": 0, "max_required_height": 0, "unsafe_rule_cases": 0, "impl_timeouts": 0}
     for c, im, mo in zip(cases, impl, model):
@@ -507,6 +525,8 @@ def evaluate_bc(ctx, binpath, cases, stream):
         st["premises"] += sum(len(r["prem"]) for r in c["rules"])
         st["goal_vars"] += len(set(atom_vars(c["goal"])))
         st["goal_v_names"] += any(v in ("v0", "v1", "v7") for v in atom_vars(c["goal"]))
+        if kn:
+            st["filtered_out_instances"] += len(least_model(c, use_filters=False)) - len(lm)
         st["lm_facts"] += len(lm)
         st["lm_derived"] += sum(1 for h in lm.values() if h > 0)
         st["lm_deeper_than_bound"] += sum(1 for h in lm.values() if h > MAX_DEPTH)
@@ -547,22 +567,16 @@ def evaluate_bc(ctx, binpath, cases, stream):
         ground_got = set(tuple(t[1] for t in a) for a in distinct if not atom_vars(a))
         missing = [f for f in required if f not in ground_got and f not in got]
         if kn:
-            st["in_known_filters"] += 1
+            st["with_filters"] += 1
         bad = None
         if missing:
             bad = {"what": "a fact of the least model with derivation height <= %d matches the goal but is not returned" % MAX_DEPTH,
                    "missing": missing[:10], "heights": [lm[f] for f in missing[:10]]}
         elif unsound:
-            if kn and is_known(ctx, FINDING_FILTERS):
-                # inside the class only the erased-filter soundness (C18_sound_erased) is demanded
+            bad = {"what": "an answer applied to the goal is not a fact of the least model", "unsound": unsound[:10]}
+            if kn:
                 lm0 = least_model(c, use_filters=False)
-                worse = [g for g in unsound if g not in lm0]
-                if worse:
-                    bad = {"what": "an answer is not even in the least model of the program with its filters erased", "unsound": worse[:10]}
-                else:
-                    st["known_filters_reproduced"] += 1
-            else:
-                bad = {"what": "an answer applied to the goal is not a fact of the least model", "unsound": unsound[:10]}
+                bad["in_least_model_without_filters"] = all(g in lm0 for g in unsound)
         if bad:
             bad.update({"impl_answers": i_answers[:20], "model_answers": m_answers[:20], "least_model": sorted(lm.items())[:40]})
             ctx.violation(c, bad)
@@ -644,19 +658,6 @@ def replay_known(ctx, binpath):
             ctx.log("finding %s no longer reproduces on its witness (entry is stale)" % k["id"])
 
 
-def gen_filtered(ctx, n, filters, cap, label):
-    out, dropped, tried = [], 0, 0
-    while len(out) < n and tried < 20 * n:
-        tried += 1
-        c = random_program(ctx.rng, filters=filters)
-        if cost_estimate(c, cap) > cap:
-            dropped += 1
-            continue
-        out.append(c)
-    ctx.stream(label, generated=tried, dropped_search_too_large=dropped, helper_call_cap=cap)
-    return out
-
-
 def run(ctx):
     ctx.coq(SUB, "C18.v")
     binpath = ctx.harness("c18")
@@ -680,14 +681,19 @@ def run(ctx):
                                         "3-premise and constant-conclusion programs) x all %(goals_per_program)d goals over "
                                         "s/o in {a,b,c,?X,?Y,?v0,?v1,?v7} (+?s in thorough), p in {parent,anc,?X,?v0}" % exinfo)
     cap = 6000 if ctx.thorough else 2500
-    n = 12000 if ctx.thorough else 400
-    rnd = gen_filtered(ctx, n, False, cap, "random-gen")
+    n = 15000 if ctx.thorough else 520
+    rnd, dropped, tried = [], 0, 0
+    while len(rnd) < n and tried < 20 * n:
+        tried += 1
+        c = random_program(ctx.rng, filters=(tried % 3 != 0))     # two thirds of the programs may carry filters
+        if cost_estimate(c, cap) > cap:
+            dropped += 1
+            continue
+        rnd.append(c)
+    ctx.stream("random-gen", generated=tried, dropped_search_too_large=dropped, helper_call_cap=cap)
     ctx.sample(rnd[0])
+    ctx.sample(next((c for c in rnd if known_filters(c)), rnd[1]), limit=6)
     evaluate_bc(ctx, binpath, rnd, "random")
-    nf = 3000 if ctx.thorough else 120
-    flt = gen_filtered(ctx, nf, True, cap, "filters-gen")
-    ctx.sample(flt[0])
-    evaluate_bc(ctx, binpath, flt, "filters")
     finish(ctx)
 
 
